@@ -51,6 +51,8 @@ func init() {
 }
 
 func runC14(c *Ctx, r *Report) {
+	r.Rule("C14/no-auth-steering", "the ssh argument list adds no option that steers authentication or host identity beyond the configured key / known-hosts / config file", 1)
+	checkNoAuthSteeringArgs(c, r, "C14/no-auth-steering")
 	r.Rule("C14/resolve-order", "ResolveFilePath uses a configured path that exists as given; the home directory is only a fallback", 1)
 	r.Rule("C14/embedded-defaults", "no embedded platform definition disables host-key checking or authentication", 15)
 	checkResolveFilePathOrder(c, r, "C14/resolve-order")
